@@ -4,6 +4,7 @@ import (
 	"fmt"
 	"math/rand"
 
+	"github.com/scottyw/tetromino/gameboy/controller"
 	"github.com/scottyw/tetromino/gameboy/memory"
 
 	"verif/harness/machine"
@@ -21,6 +22,7 @@ type intScript struct {
 	IME    int
 	IE, IF int
 	Raises [][2]int // (global cycle t, bit): raised before cycle t
+	Keys   []int    // global cycles before which a key event (ButtonAction + CPU.OnInput, as the display does) happens
 	Units  int      // number of units to record
 	StopPC int      // if non-zero: stop after the first non-idle unit that starts at this PC
 }
@@ -93,7 +95,7 @@ func (r *intRig) run(s *intScript) *trace.Scenario {
 	m.I.WriteIE(uint8(s.IE))
 	m.I.WriteIF(uint8(s.IF))
 	m.CPU.VerifSet(regsFrom(s.Regs))
-	sc := &trace.Scenario{ID: s.ID, Reset: []int{trace.B2I(m.I.Enabled()), int(m.I.ReadIE() & 0x1f), int(m.I.ReadIF() & 0x1f)}}
+	sc := &trace.Scenario{ID: s.ID, Reset: []int{trace.B2I(m.I.Enabled()), int(m.I.ReadIE()), int(m.I.ReadIF() & 0x1f)}}
 	t := 0
 	raisesAt := func(t int) []int {
 		var bits []int
@@ -104,14 +106,34 @@ func (r *intRig) run(s *intScript) *trace.Scenario {
 		}
 		return bits
 	}
+	keyAt := func(t int) bool {
+		for _, k := range s.Keys {
+			if k == t {
+				return true
+			}
+		}
+		return false
+	}
+	pressed := false
+	doKey := func() {
+		// what the display's key callback does
+		pressed = !pressed
+		m.C.ButtonAction(controller.A, pressed)
+		m.CPU.OnInput()
+	}
 	for u := 0; u < s.Units; u++ {
 		pre := regsOf(m.CPU.VerifGet())
 		wasHalted := m.CPU.VerifGet().Halted
 		ob := []int{int(m.M.VerifPeek(uint16(pre[9]))), int(m.M.VerifPeek(uint16(pre[9] + 1))), int(m.M.VerifPeek(uint16(pre[9] + 2)))}
 		raises := [][]int{}
+		keys := []int{}
 		for _, b := range raisesAt(t) {
 			raiseBit(m, b)
 			raises = append(raises, []int{0, b})
+		}
+		if keyAt(t) {
+			doKey()
+			keys = append(keys, 0)
 		}
 		r.bus = nil
 		n := 0
@@ -128,6 +150,10 @@ func (r *intRig) run(s *intScript) *trace.Scenario {
 				raiseBit(m, b)
 				raises = append(raises, []int{n, b})
 			}
+			if keyAt(t) {
+				doKey()
+				keys = append(keys, n)
+			}
 		}
 		r.on = false
 		bus := r.bus
@@ -135,7 +161,7 @@ func (r *intRig) run(s *intScript) *trace.Scenario {
 			bus = [][]int{}
 		}
 		post := regsOf(m.CPU.VerifGet())
-		sc.Ev = append(sc.Ev, []any{pre, ob, bus, post, n, int(m.I.ReadIE() & 0x1f), int(m.I.ReadIF() & 0x1f), raises})
+		sc.Ev = append(sc.Ev, []any{pre, ob, bus, post, n, int(m.I.ReadIE()), int(m.I.ReadIF() & 0x1f), raises, keys})
 		if s.StopPC != 0 && pre[9] == s.StopPC && !wasHalted {
 			break
 		}
@@ -196,7 +222,8 @@ func intGen(c *Ctx) {
 		for ime := 0; ime < 2; ime++ {
 			for ie := 0; ie < 32; ie++ {
 				for ifl := 0; ifl < 32; ifl++ {
-					emit("boundary", &intScript{Regs: intRegs(rng), Code: []int{0x04, 0x04, 0x0c}, IME: ime, IE: ie, IF: ifl, Units: 3})
+					// the three unused high bits of IE are plain storage and must not matter
+					emit("boundary", &intScript{Regs: intRegs(rng), Code: []int{0x04, 0x04, 0x0c}, IME: ime, IE: ie | []int{0, 0, 0xe0, 0x20, 0x80}[rng.Intn(5)], IF: ifl, Units: 3})
 				}
 			}
 		}
@@ -250,7 +277,7 @@ func intGen(c *Ctx) {
 								s.Raises = [][2]int{{off, bit}}
 							}
 							// A holds a value that makes LDH writes meaningful
-							s.Regs[0] = []int{0x00, 0x01, 0x04, 0x05, 0x1f}[rng.Intn(5)]
+							s.Regs[0] = []int{0x00, 0x01, 0x04, 0x05, 0x1f, 0xe4, 0xff, 0xe0}[rng.Intn(8)]
 							emit(fam, s)
 						}
 					}
@@ -293,10 +320,14 @@ func intGen(c *Ctx) {
 		for ime := 0; ime < 2; ime++ {
 			for ie := 0; ie < 32; ie++ {
 				for ifl := 0; ifl < 32; ifl++ {
-					s := &intScript{Regs: intRegs(rng), Code: []int{0x76, 0x04, 0x0c, 0x14}, IME: ime, IE: ie, IF: ifl, Units: 14}
+					s := &intScript{Regs: intRegs(rng), Code: []int{0x76, 0x04, 0x0c, 0x14}, IME: ime, IE: ie | []int{0, 0, 0xe0, 0x40, 0xa0}[rng.Intn(5)], IF: ifl, Units: 14}
 					k := rng.Intn(9)
 					bit := rng.Intn(5)
-					s.Raises = [][2]int{{1 + k, bit}}
+					s.Raises = [][2]int{{1 + k + rng.Intn(3), bit}}
+					if rng.Intn(3) == 0 {
+						// a key event while idling: on its own it is not an interrupt request
+						s.Keys = []int{1 + rng.Intn(k+1)}
+					}
 					emit("halt", s)
 				}
 			}
@@ -372,6 +403,11 @@ func intRerun(c *Ctx) {
 			for _, rz := range e[7].([]any) {
 				x := trace.Ints(rz)
 				sc.Raises = append(sc.Raises, [2]int{t + x[0], x[1]})
+			}
+			if len(e) > 8 {
+				for _, k := range trace.Ints(e[8]) {
+					sc.Keys = append(sc.Keys, t+k)
+				}
 			}
 			t += trace.Int(e[4])
 		}
